@@ -58,7 +58,8 @@ REQUIRED = ['cases', 'cmp_verdict', 'expected_accept', 'expected_reject', 'cmp_c
             'dyn_returned', 'dyn_freed', 'dyn_accept_via_callback', 'cmp_sweep_tbs', 'cmp_sweep_sig', 'sweep_chains',
             'unjudged_doc_silent', 'cmp_init_full', 'cmp_knownkey', 'knownkey_rsa', 'knownkey_ec', 'cmp_dynamic_null_free',
             'dyn_null_free_returned', 'cmp_getpkey_null_usages', 'context_reuse_dynamic_anchors',
-            'context_reuse_dyn_returned', 'context_reuse_poisoned_buffers']
+            'context_reuse_dyn_returned', 'context_reuse_poisoned_buffers', 'time_set_after_other_callback',
+            'time_set_after_other_time']
 
 NW = 16
 PARAMS = {
